@@ -254,7 +254,7 @@ def step (s : St) (op : List String) (impl : Option (List String)) : St × Strin
       (s, showModel (.val (incompleteGamma K x al g)) rest, judge fun o =>
         [("guards_total_incompleteGamma", !isExc o),
          ("guards_total_incompleteGamma", !(igSentinel x al) || valIs o (-1)),
-         ("guards_total_incompleteGamma", !(x == 0) || valIs o 0),
+         ("guards_total_incompleteGamma", igSentinel x al || !(x == 0) || valIs o 0),
          ("guards_total_incompleteGamma", igSentinel x al || !valIs o (-1))])
     | none => bad
   | ["pgamma", a, b, c] =>
